@@ -12,7 +12,10 @@
 //   {"ev":"flaws", ...}   per type: the sv_flaws / rr_flaws stored so far with the resolvers compute_resolvers gave them
 //   {"ev":"final", ...}   for every StateVariable / ReusableResource type: atoms, to_check at return, the result of one
 //                         more get_current_incs() with to_check forced to contain every instance, the JSON of
-//                         extract_timelines() (pointers renamed to canonical indices), origin and horizon.
+//                         extract_timelines() (pointers renamed to canonical indices), origin and horizon; plus "all_atoms":
+//                         the atoms of the type's instances enumerated WITHOUT the smart type's registry (all predicates
+//                         of the core and of all types, tau value(s) an item whose type derives from the smart type at any
+//                         depth) -- what the property judge uses.
 //
 // Canonical names: instance k = k-th element of <smart type>.get_instances() (creation order); atom k = k-th element
 // of the smart type's `atoms` vector (creation order). No pointer, hash order or float is printed.
@@ -407,6 +410,155 @@ private:
     }
 };
 
+// ------------------------------------------------------------------------------------------------------------------
+// an enumeration of atoms and instances that does NOT go through the smart type's own registry (`atoms`, filled by
+// new_atom): every predicate of the core and of every type (at any nesting depth), every instance of it; an atom belongs
+// to a smart type when one of the values of its tau is an item whose type reaches the smart type through get_supertypes
+// at ANY depth. Used by the property judge: an atom the planner forgot to hand to the smart type is still judged.
+// ------------------------------------------------------------------------------------------------------------------
+static bool derives_from(const type *t, const type *base)
+{
+    std::queue<const type *> q;
+    std::set<const type *> seen;
+    q.push(t);
+    while (!q.empty())
+    {
+        const type *c = q.front();
+        q.pop();
+        if (c == base)
+            return true;
+        if (!seen.insert(c).second)
+            continue;
+        for (const auto &st : c->get_supertypes())
+            q.push(st);
+    }
+    return false;
+}
+
+static std::string independent_view(solver &s, recorder &r)
+{
+    // all types, all predicates
+    std::vector<type *> types;
+    std::vector<predicate *> preds;
+    for (const auto &[n, p] : s.get_predicates())
+        preds.push_back(p);
+    {
+        std::queue<type *> q;
+        std::set<type *> seen;
+        for (const auto &[n, t] : s.get_types())
+            q.push(t);
+        while (!q.empty())
+        {
+            type *t = q.front();
+            q.pop();
+            if (!seen.insert(t).second)
+                continue;
+            types.push_back(t);
+            for (const auto &[n, p] : t->get_predicates())
+                preds.push_back(p);
+            for (const auto &[n, t2] : t->get_types())
+                q.push(t2);
+        }
+    }
+    // instances: the smart type's own list first (canonical numbering), then whatever else derives from it
+    std::map<const item *, int> ii = r.inst_idx();
+    std::vector<const item *> order(ii.size());
+    for (const auto &[i, k] : ii)
+        order[k] = i;
+    const size_t n_listed = order.size();
+    for (const auto &t : types)
+        if (!t->is_primitive() && derives_from(t, r.st()))
+            for (const auto &i : t->get_instances())
+                if (!ii.count(&*i))
+                {
+                    ii.emplace(&*i, (int)order.size());
+                    order.push_back(&*i);
+                }
+    const auto ai = r.atom_idx();
+    std::set<atom *> atoms;
+    for (const auto &p : preds)
+        for (const auto &a : p->get_instances())
+            if (atom *at = dynamic_cast<atom *>(&*a))
+                atoms.insert(at);
+    // deterministic order: registered atoms by registry index, then the others by sigma variable
+    std::vector<atom *> av(atoms.begin(), atoms.end());
+    std::sort(av.begin(), av.end(), [&](atom *x, atom *y)
+              {
+                  const int rx = ai.count(x) ? ai.at(x) : -1, ry = ai.count(y) ? ai.at(y) : -1;
+                  if ((rx < 0) != (ry < 0))
+                      return ry < 0;
+                  if (rx >= 0)
+                      return rx < ry;
+                  return x->get_sigma() < y->get_sigma(); });
+    std::ostringstream os;
+    os << "\"n_inst_listed\":" << n_listed << ",\"n_inst_all\":" << order.size() << ",\"inst_types\":[";
+    for (size_t k = 0; k < order.size(); ++k)
+        os << (k ? "," : "") << "\"" << order[k]->get_type().get_name() << "\"";
+    os << "]";
+    if (r.rr)
+    {
+        os << ",\"capacity_all\":[";
+        for (size_t k = 0; k < order.size(); ++k)
+        {
+            auto it = order[k]->exprs.find(REUSABLE_RESOURCE_CAPACITY);
+            if (it == order[k]->exprs.end())
+                os << (k ? "," : "") << "null";
+            else
+            {
+                arith_expr c = it->second;
+                os << (k ? "," : "") << iq(s.arith_value(c));
+            }
+        }
+        os << "]";
+    }
+    os << ",\"all_atoms\":[";
+    bool first = true;
+    int unreg = 0;
+    for (atom *a : av)
+    {
+        auto tau_it = a->exprs.find(TAU);
+        if (tau_it == a->exprs.end())
+            continue;
+        std::vector<int> dom;
+        bool is_var = false;
+        if (var_item *vi = dynamic_cast<var_item *>(&*tau_it->second))
+        {
+            is_var = true;
+            for (const auto &v : s.get_ov_theory().value(vi->ev))
+                if (auto it = ii.find(static_cast<const item *>(v)); it != ii.end())
+                    dom.push_back(it->second);
+            std::sort(dom.begin(), dom.end());
+        }
+        else if (auto it = ii.find(static_cast<const item *>(&*tau_it->second)); it != ii.end())
+            dom.push_back(it->second);
+        const int reg = ai.count(a) ? ai.at(a) : -1;
+        if (dom.empty() && reg < 0)
+            continue; // an atom of some other type
+        os << (first ? "" : ",") << "{\"id\":" << (reg >= 0 ? reg : 1000 + unreg) << ",\"reg\":" << reg << ",\"sigma\":" << lb(s.get_sat_core().value(a->get_sigma()))
+           << ",\"pred\":\"" << a->get_type().get_name() << "\",\"tau_var\":" << (is_var ? "true" : "false") << ",\"tau\":[";
+        if (reg < 0)
+            ++unreg;
+        first = false;
+        for (size_t k = 0; k < dom.size(); ++k)
+            os << (k ? "," : "") << dom[k];
+        os << "]";
+        auto s_it = a->exprs.find(RATIO_START), e_it = a->exprs.find(RATIO_END), am_it = a->exprs.find(REUSABLE_RESOURCE_USE_AMOUNT_NAME);
+        if (s_it != a->exprs.end() && e_it != a->exprs.end())
+        {
+            arith_expr sx = s_it->second, ex = e_it->second;
+            os << ",\"start\":" << iq(s.arith_value(sx)) << ",\"end\":" << iq(s.arith_value(ex));
+        }
+        if (r.rr && am_it != a->exprs.end())
+        {
+            arith_expr am = am_it->second;
+            os << ",\"amount\":" << iq(s.arith_value(am));
+        }
+        os << "}";
+    }
+    os << "]";
+    return os.str();
+}
+
 static std::string read_all(std::istream &is)
 {
     std::ostringstream ss;
@@ -494,7 +646,7 @@ int main(int argc, char *argv[])
     for (auto *p : proxies)
     {
         recorder &r = p->rec;
-        std::cout << (first ? "" : ",") << "{" << r.state();
+        std::cout << (first ? "" : ",") << "{" << r.state() << "," << independent_view(s, r);
         first = false;
         // the timelines of this type, as the implementation extracts them
         std::map<std::string, std::string> ren;
